@@ -419,6 +419,17 @@ func relatedPairs(r *rand.Rand, l []sx.V) (out [][]sx.V, shapes []string) {
 			out, shapes = append(out, c), append(shapes, "perturb-value")
 		}
 	}
+	// same type, different value: only high-order bytes of a fixed-width field change (c19_highbytes.go); three per item
+	for i := range l {
+		vs := c19hbVariants(l[i], false)
+		for t := 0; t < 3 && len(vs) > 0; t++ {
+			j := descHash(l[i].String(), fmt.Sprint("hb", t)) % len(vs)
+			c := cp()
+			c[i] = vs[j].v
+			out, shapes = append(out, c), append(shapes, c19hbShape(l[i].L[0].AsInt()))
+			vs = append(vs[:j:j], vs[j+1:]...)
+		}
+	}
 	if len(l) >= 2 {
 		i := r.Intn(len(l) - 1)
 		c := cp()
@@ -574,13 +585,18 @@ func (c *ctx) c19CheckSeq(vals []sx.V, class string) (gd []byte, ms []byte, ok b
 		c.res.Violate("correspondence", "C19/stream-mismatch/kind="+kind,
 			"model stream hashed with BLAKE3 differs from hash.Sum() (or error status differs)",
 			c19Replay{SeqA: seqString(min), GoA: hex.EncodeToString(gd), Model: hex.EncodeToString(ms), What: "stream correspondence", Hints: hintsFor(min)})
+		// a kind whose bytes differ from the model's: look for a colliding pair of that kind before giving up
+		if len(min) == 1 {
+			c.c19MismatchSearch(min[0])
+		}
 	}
 	return gd, ms, agree
 }
 
 func runC19(c *ctx) {
 	r := c.res.Rng
-	c.res.Rule = "random typed-value sequences (19 kinds, adversarial byte strings) + derived related sequences per attack shape; " +
+	c.res.Rule = "random typed-value sequences (25 kinds, adversarial byte strings) + derived related sequences per attack shape; " +
+		"per kind: pairs differing only in high-order bytes of a fixed-width field (v + k*2^(8w) for every byte position, top byte / upper half cleared); " +
 		"non-trivial = non-empty sequence; distinct by printed sequence"
 	if c.replay != "" {
 		c19Replay_(c)
@@ -648,6 +664,8 @@ func runC19(c *ctx) {
 		}
 		c.c19Commit(r, s)
 	}
+	// 4. pairs differing only in high-order bytes of fixed-width fields, every kind (c19_highbytes.go)
+	c.c19HighBytesAll(r)
 }
 
 func goItems(vals []sx.V) []interface{} {
